@@ -24,7 +24,7 @@ func c01(r *hx.Run) {
 	fx.Quiet()
 	client, v := stdClient()
 	delta := v.P.MaxOperationTimeDelta
-	r.Rule = "for every legitimate chain L (24 chains of <=4 operations, anchored at times 2,4,6,8) and every multiset X of <=2 (thorough <=3 for update chains) unauthorised operations / duplicate creates placed at every anchoring slot (before, same time smaller/larger number, after each legitimate operation) and both store orders, resolve L and L+X on the real processor and require identical results (metamorphic). Non-trivial: X contains an operation that parses and reveals the commitment in force at some point of L."
+	r.Rule = "for every legitimate chain L (24 chains of <=4 operations, anchored at times 2,4,6,8) and every multiset X of <=2 (thorough <=3 for update chains) unauthorised operations / duplicate creates placed at every anchoring slot (before, same time smaller/larger number, after each legitimate operation) and both store orders, resolve L and L+X on the real processor and require identical results (metamorphic). Non-trivial: X contains an operation that parses and reveals the commitment in force at some point of L. A further section makes every single protocol-version lookup of the resolution fail in turn for short chains on a valid / invalid create plus each forged operation: error, or the fault-free result of the chain minus at most one of its own operations."
 	type poolKT struct {
 		kt   string
 		full bool
@@ -220,6 +220,41 @@ func c01(r *hx.Run) {
 	}
 	_ = kindsGrouped
 	r.Extra["positive_controls_effective"] = "see assumptions"
+	// ---- a failing protocol-version lookup does not let an unauthorised operation in: for short chains on a valid and on an invalid
+	// create (no update commitment in force) and every forged operation, every single lookup of the resolution fails in turn; the
+	// result is an error or the fault-free result of the chain with at most one of ITS operations left out
+	for _, variant := range []string{"ok", "invalid"} {
+		pool := fx.NewPool(fx.Ed25519, fx.SHA256, variant)
+		forged := opIDs(pool, func(o *fx.PoolOp) bool { return o.Kind != "legit" && o.Kind != "control" && o.Type != "create" })
+		for ci, chain := range [][]string{{"C"}, {"C", "U01"}, {"C", "R01", "V01"}} {
+			var L []fx.Placed
+			for i, id := range chain {
+				L = append(L, fx.Placed{Op: pool.Get(id), Time: uint64(2 + 2*i), Num: 1, Published: true})
+			}
+			allowed := map[Result]bool{}
+			for leave := -1; leave < len(L); leave++ {
+				var h []fx.Placed
+				for i, pl := range L {
+					if i != leave {
+						h = append(h, pl)
+					}
+				}
+				allowed[ProjectImpl(ResolveImpl(client, pool.Suffix, h))] = true
+			}
+			hx.ParallelFor(len(forged), func(fi int) {
+				for si, slot := range []Coord{{3, 0}, {7, 0}} {
+					caseID := fmt.Sprintf("flaky|%s|chain%d|%s|slot%d", variant, ci, forged[fi], si)
+					if !r.Want(caseID) {
+						continue
+					}
+					all := append([]fx.Placed{{Op: pool.Get(forged[fi]), Time: slot.T, Num: slot.N, Published: true}}, L...)
+					r.State()
+					r.Nontrivial(caseID)
+					flakySweep(r, "unauthorised-changes-state-after-failed-lookup:"+variant, caseID, client, pool.Suffix, all, allowed, 3*len(all)+3)
+				}
+			})
+		}
+	}
 	r.Assumptions = append(r.Assumptions,
 		"the compared result includes metadata fields (version id, references, times) in addition to document, commitments and deactivation flag",
 		"pairs use 4 representative slots per member (before all, same time as / right after the last legitimate operation, between); singletons use every slot")
